@@ -763,13 +763,31 @@ class Interp:
 				k, v = part.split(":", 1)
 				named.append((k.strip(), self.operand(st, fi, v)))
 			ty = "closure" if path.startswith("{closure@") else strip_generics(path).split("::")[-1]
+			if ty == "closure" and len(named) == 1 and named[0][0] == "self":
+				# rustc's pretty-printer names every capture after the ROOT variable of the captured path,
+				# so several captures of `self.<field>` collapse into one printed `self: ..` entry. The
+				# captures are the temporaries assigned just before the literal, in upvar order.
+				fr = st.frames[fi]
+				blk = fr.fn.blocks[fr.bb]
+				caps = []
+				for prev in blk[: fr.ip - 1]:
+					mm = re.match(r"^(_\d+) = ", prev)
+					if mm and not re.search(r"-> \[", prev):
+						caps.append(fr.locals.get(int(mm.group(1)[1:])))
+				if len(caps) > 1:
+					named = [("self%d" % k, v) for k, v in enumerate(caps)]
 			order = self.struct_fields.get(ty)
 			if order:
 				d = dict(named)
 				fields = [d[k] for k in order]
 			else:
 				fields = [v for _, v in named]
-			return Agg(ty if ty != "closure" else path, None, fields)
+			if ty == "closure":
+				# remember which function created the closure: macro-generated impls share source locations
+				pf = st.frames[fi].fn
+				idx = next((k for k, f in enumerate(self.fns) if f is pf), -1)
+				return Agg(path + "@@" + str(idx), None, fields)
+			return Agg(ty, None, fields)
 		# aggregate: Path(args) | Path
 		if s.endswith(")"):
 			k = s.rindex("(") if False else None
